@@ -732,6 +732,8 @@ func (t *Teamserver) EventListenerError(ListenerName string, Error error) {
 	t.EventBroadcast("", pk)
 
 	// also remove the listener from the init packages.
+	t.EventsMtx.Lock()
+	defer t.EventsMtx.Unlock()
 	for EventID := range t.EventsList {
 		if t.EventsList[EventID].Head.Event == packager.Type.Listener.Type {
 			if t.EventsList[EventID].Body.SubEvent == packager.Type.Listener.Add {
@@ -804,6 +806,9 @@ func (t *Teamserver) RemoveClient(ClientID string) {
 
 func (t *Teamserver) EventAppend(event packager.Package) []packager.Package {
 
+	t.EventsMtx.Lock()
+	defer t.EventsMtx.Unlock()
+
 	// some sanity check
 	if event.Head.Event == 0 {
 		return t.EventsList
@@ -818,13 +823,21 @@ func (t *Teamserver) EventAppend(event packager.Package) []packager.Package {
 }
 
 func (t *Teamserver) EventRemove(EventID int) []packager.Package {
+	t.EventsMtx.Lock()
+	defer t.EventsMtx.Unlock()
+
 	t.EventsList = append(t.EventsList[:EventID], t.EventsList[EventID+1:]...)
 
 	return append(t.EventsList[:EventID], t.EventsList[EventID+1:]...)
 }
 
 func (t *Teamserver) SendAllPackagesToNewClient(ClientID string) {
-	for _, Package := range t.EventsList {
+	// replay a snapshot: events keep being recorded while this client is served
+	t.EventsMtx.Lock()
+	var Events = append([]packager.Package{}, t.EventsList...)
+	t.EventsMtx.Unlock()
+
+	for _, Package := range Events {
 		err := t.SendEvent(ClientID, Package)
 		if err != nil {
 			logger.Error("error while sending info to client("+ClientID+"): ", err)
